@@ -11,7 +11,7 @@ TAG_CLASSIFIED = {'C01', 'C03', 'C14', 'C15', 'C17'}
 
 def cls_of(row, prop):
     head = row['detail'].split('\n')[0]
-    if prop in TAG_CLASSIFIED and 'tags=' in head and row['kind'] == 'semantic':
+    if prop in TAG_CLASSIFIED and 'tags=' in head and row['kind'] in ('semantic', 'spellings-differ'):
         t = head.split('tags=')[1].split(',')[0].strip()
         return t if t else 'untagged'
     return row['kind']
